@@ -38,7 +38,7 @@ type match struct {
 }
 
 type afNeighbor struct {
-	active     bool
+	active      bool
 	rmIn, rmOut string
 }
 
